@@ -608,15 +608,18 @@ def run_update_both(ck, ck_ob, mod, label, maxlen=48):
     per-class rule does not recognise is exit 2 unless the small-length rule has already refuted a concrete (position, length)"""
     n = 0
     small_broken = None
+    nviol0 = len(ck.violations)
     try:
         n += run_update_small(ck_ob, mod, label, maxlen=maxlen)
     except Broken as e:
         small_broken = e
     nviol = len(ck.violations)
+    snap = ck.snapshot()
     try:
         n += run_update(ck_ob, mod, label)
     except Broken as e:
-        if not ck.violations:
+        ck.rollback(snap)
+        if len(ck.violations) == nviol0:
             raise
         ck.note("per-class rule for tinyjambu_hash_update not decided: %s" % str(e)[:200])
         return n
